@@ -1,7 +1,7 @@
 """Bounded instances shared by the ProcessCore checks."""
 from .. import core_check, core_model
 
-ALL = ['P01', 'P02', 'P03', 'P04', 'P05', 'P06', 'P07', 'P08', 'P09', 'P10', 'P12', 'P13', 'P14']
+ALL = ['P01', 'P02', 'P03', 'P04', 'P05', 'P06', 'P07', 'P08', 'P09', 'P10', 'P12', 'P13', 'P14', 'P25']
 SMALL = ['P03', 'P04', 'P05', 'P12']
 REQS4 = [('kill', 'k2'), ('pause', 'p2'), ('play', '-'), ('resume', 'v2')]
 
